@@ -212,6 +212,23 @@ def err_fields(toks):
     return out
 
 
+KW = {
+    'constant': ('constant', 'const ', 'immutable', 'frozen', 'read-only', 'readonly'),
+    'merge': ('merge', 'merging', 'combine', 'conflict', 'incompatible'),
+    'loop': ('loop', 'cycl', 'circular', 'recursi'),
+    'depth': ('depth', 'recursion', 'nesting', 'too deep', 'limit'),
+    'not found': ('not found', 'missing', 'no such', 'unknown', "doesn't exist", 'does not exist', 'undefined', 'not defined'),
+    'pars': ('pars', 'syntax', 'invalid reference', 'malformed', 'unclosed', 'unterminated'),
+    'sequence': ('sequence', 'list', 'array'),
+    'lookup': ('lookup', 'look up', 'looking up', 'index into', 'descend'),
+}
+
+
+def has_kw(msg, kind):
+    low = msg.lower()
+    return any(w in low for w in KW[kind])
+
+
 def err_matches(mtoks, msg):
     """Does the implementation's error message [msg] carry what the model error says?
     Wording is not compared: only the kind keyword and the named key / parameter / path."""
@@ -219,6 +236,10 @@ def err_matches(mtoks, msg):
         return False
     k = mtoks[0]
     low = msg.lower()
+
+    def has(*words):
+        # kind keywords with the usual synonyms, so that a reworded message is not an alarm
+        return any(w in low for w in words)
     if k == 'EResolving':
         return err_matches(mtoks[1:], msg)
     if k == 'ENodeFailed':
@@ -230,23 +251,23 @@ def err_matches(mtoks, msg):
     f = err_fields(mtoks[1:])
     if k == 'EConst':
         key = f[0]
-        return 'constant' in low and (key in msg if isinstance(key, str) and not key.startswith(('I', 'T', 'F', 'N', 'D', 'M', 'L')) else True)
+        return has(*KW['constant']) and (key in msg if isinstance(key, str) and not key.startswith(('I', 'T', 'F', 'N', 'D', 'M', 'L')) else True)
     if k == 'EMerge':
-        return 'merge' in low and f[0] in msg and f[1] in msg
+        return has(*KW['merge']) and f[0] in msg and f[1] in msg
     if k == 'EFlattenString':
         return 'flatten' in low
     if k == 'EParse':
-        return 'pars' in low
+        return has(*KW['pars'])
     if k == 'ELoop':
-        return 'loop' in low and all(p in msg for p in f)
+        return has(*KW['loop']) and all(p in msg for p in f)
     if k == 'EDepth':
-        return 'depth' in low and f[0] in msg
+        return has(*KW['depth']) and f[0] in msg
     if k == 'EMissingKey':
-        return 'not found' in low and ('${%s}' % f[0]) in msg and f[1] in msg and f[2] in msg
+        return has(*KW['not found']) and ('${%s}' % f[0]) in msg and f[1] in msg and f[2] in msg
     if k == 'ELookupSeq':
-        return 'sequence' in low and ('${%s}' % f[0]) in msg
+        return has(*KW['sequence']) and ('${%s}' % f[0]) in msg
     if k == 'ELookupKind':
-        return 'lookup' in low and ('${%s}' % f[0]) in msg and f[4] in msg
+        return has(*KW['lookup']) and ('${%s}' % f[0]) in msg and f[4] in msg
     if k == 'ERawString':
         return 'raw_string' in low and f[0] in msg
     if k == 'EJsonKey':
@@ -260,9 +281,9 @@ def err_matches(mtoks, msg):
     if k == 'ERenderNonMapping':
         return f[0] in msg
     if k == 'EClassNotFound':
-        return 'not found' in low and f[0] in msg
+        return has(*KW['not found']) and f[0] in msg
     if k == 'EIncludeLoop':
-        return 'loop' in low and f[0] in msg
+        return has(*KW['loop']) and f[0] in msg
     if k == 'EUnknownNode':
         return 'unknown node' in low
     if k == 'EYamlShape':
